@@ -108,8 +108,8 @@ pub fn fp<T: serde::Serialize, E: std::fmt::Display>(r: Result<T, E>) -> String 
 /// When fitting the *original* twice already gives different models (k-means||, documented as
 /// non-deterministic) the comparison is skipped and counted.
 pub fn refit_same(ctx: &mut Ctx, class: &str, fa: &dyn Fn() -> String, fb_: &dyn Fn() -> String) {
-    let (a1, a2) = (fa(), fa());
-    if a1 != a2 {
+    let (a1, a2, a3) = (fa(), fa(), fa());
+    if a1 != a2 || a1 != a3 {
         NONDET.fetch_add(1, std::sync::atomic::Ordering::Relaxed);
         return;
     }
@@ -817,7 +817,9 @@ fn trees<F: Fl>(em: &mut Em, rng: &mut Rng, sw: &mut Sweep) {
         rt(em, sw, "linfa-trees::SplitQuality", tag, Norm::Exact, &q, eqb!());
     }
     for it in 0..3 {
-        let (n, p, c) = (14 + rng.below(12), 1 + rng.below(4), 2 + rng.below(3));
+        // it == 0 is the configuration used for the refit comparison: one feature, two separable classes
+        // (a single best split, pure leaves), so that the fit does not depend on hash-map order
+        let (n, p, c) = if it == 0 { (14 + rng.below(12), 1, 2) } else { (14 + rng.below(12), 1 + rng.below(4), 2 + rng.below(3)) };
         let y = labels(rng, n, c);
         let x: Array2<F> = blobs(rng, n, p, &y);
         let fresh: Array2<F> = records(rng, 8, p);
